@@ -1,4 +1,5 @@
 # ./check <id> [--tier quick|thorough] [--replay file] : decide one property on /repo's current working tree.
+import re
 import argparse, fnmatch, importlib, json, multiprocessing, os, shutil, sys, time, traceback
 from concurrent.futures import ThreadPoolExecutor
 from fractions import Fraction
@@ -56,7 +57,7 @@ def replay_cmd(P, path):
     entry = hdr.get('entry')
     args = json.loads(hdr.get('args', '[]'))
     exe = build.build_native(P.SOURCES, extra=getattr(P, 'FLAGS', []) + getattr(P, 'NATIVE_FLAGS', []), runtime_flags=list(getattr(P, 'RUNTIME_FLAGS', [])), link_flags=list(getattr(P, 'NATIVE_LINK_FLAGS', [])))
-    rc, chks, out = driver.native_replay(exe, dict(entry=entry, args=args), path)
+    rc, chks, out = driver.native_replay(exe, dict(entry=entry, args=args), path, rand_seed=(int(hdr['rand_seed']) if 'rand_seed' in hdr else None))
     print(out)
     bad = [k for k, v in chks.items() if not v[0]]
     print(f'replay: {len(bad)} failing checks: {bad[:10]}')
@@ -208,8 +209,29 @@ def run_check(P, tier, seed, a):
                                    replay=fn, confirmed='happens-before relation read off the OpenMP runtime calls in the IR (no barrier / program order between the two accesses)', rec=rec))
             continue
         if rec['answer'] == 'structural':
-            violations.append(dict(key=key, what=f'{rec["tag"]}[{rec["k"]}] is not bit-exact by construction: {b.get("reason")}', job=job,
-                                   replay=None, confirmed='structure of the operation tree', rec=rec))
+            # the two operation trees differ and are beyond a QF_FP query: look for doubles that exhibit a difference in the native
+            # build (pseudo-random inputs); without one the obligation is reported as not decided, not as a violation
+            attempts[key] = attempts.get(key, 0) + 1
+            if attempts[key] > MAX_REPLAYS_PER_KEY + 3:
+                continue
+            found = None
+            for sd in range(1, 41):
+                try:
+                    rc_, chks_, out_ = driver.native_replay(exe, job, None, timeout=120, rand_seed=sd)
+                except Exception:
+                    break
+                kk = (rec['tag'], rec['k'], 'bits')
+                if kk in chks_ and not chks_[kk][0]:
+                    found = (sd, chks_[kk][3])
+                    break
+            if found is None:
+                (soft_inconclusive if job.get('undecided_ok') else inconclusive).append(f'{key}[{rec["k"]}]: operation trees differ ({b.get("reason")}) but 40 native runs on pseudo-random inputs agree bit for bit')
+                continue
+            os.makedirs(replay_dir, exist_ok=True)
+            fn = os.path.join(replay_dir, f'{job["entry"]}_{"_".join(str(x) for x in job.get("args", []))}_{rec["tag"]}_{rec["k"]}.vals'.replace('/', '_').replace(' ', '_'))
+            open(fn, 'w').write(f'# property: {pid}\n# entry: {job["entry"]}\n# args: {json.dumps(job.get("args", []))}\n# obligation: {rec["tag"]}[{rec["k"]}] kind=bits\n# rand_seed: {found[0]}\n')
+            violations.append(dict(key=key, what=f'{rec["tag"]}[{rec["k"]}] is not bit-exact ({job.get("label")}): {b.get("reason")}', job=job,
+                                   replay=fn, confirmed=f'native run with pseudo-random inputs (seed {found[0]}): {found[1]}', rec=rec))
             continue
         attempts[key] = attempts.get(key, 0) + 1
         if attempts[key] > MAX_REPLAYS_PER_KEY + 3:
@@ -227,6 +249,15 @@ def run_check(P, tier, seed, a):
         if env is None:
             (soft_inconclusive if job.get('undecided_ok') else inconclusive).append(f'{key}: solver said sat but produced no model')
             continue
+        if rec['kind'] == 'bits' and b.get('file_path'):
+            # complete the floating-point model over the path's real assumptions (the doubles of the model pinned)
+            tp = open(b['file_path']).read()
+            pins = ''.join(f'(assert (= {k} {smt.num(Fraction(v), "R")}))\n' for k, v in env.items() if isinstance(v, float) and re.search(rf'\(declare-fun {re.escape(k)} \(\)', tp))
+            tp = tp.replace('(check-sat)', pins + '(check-sat)', 1)
+            ansp, wp, rawp = smt.run(tp, 'z3', 60, os.path.dirname(b['file_path']), tag='pc', decimal=True)
+            if ansp and ansp[0] == 'sat':
+                for k, v in (smt.parse_values(rawp) or {}).items():
+                    env.setdefault(k, v)
         env.update(summaries[rec['job']]['paths'][rec['path']].get('choices', {}))
         os.makedirs(replay_dir, exist_ok=True)
         fn = os.path.join(replay_dir, f'{job["entry"]}_{"_".join(str(x) for x in job.get("args", []))}_{rec["tag"]}_{rec["k"]}.vals'.replace('/', '_').replace(' ', '_'))
